@@ -10,6 +10,7 @@ import apk as _apk
 import cab as _cab
 import appx as _appx
 import pgp as _pgp
+import macho as _macho
 _c09 = importlib.import_module("props.c09")
 _c19 = importlib.import_module("props.c19")
 
@@ -94,6 +95,20 @@ class _AppxAdapter:
         return _appx.predicate("C05", op, il, mres, tag)
 
 
+class _MachoAdapter:
+    nontrivial = staticmethod(_macho.nontrivial)
+    branch = staticmethod(_macho.branch)
+    matches_known = staticmethod(_macho.matches_known)
+
+    @staticmethod
+    def agree(op, il, mres, tag):
+        return _macho.equiv(op, il, mres)
+
+    @staticmethod
+    def predicate(op, il, mres, tag):
+        return _macho.predicate("C05", op, il, mres, tag)
+
+
 class _PgpAdapter:
     nontrivial = staticmethod(_pgp.nontrivial)
     branch = staticmethod(_pgp.branch)
@@ -110,7 +125,7 @@ class _PgpAdapter:
 
 def _m(op):
     t = op.split(" ", 1)[0]
-    return {"PE": None, "JAR": _JarAdapter, "APK": _ApkAdapter, "APPX": _AppxAdapter, "PGP": _PgpAdapter, "CAB": _CabAdapter, "C09": _c09, "C19": _c19}.get(t)
+    return {"PE": None, "JAR": _JarAdapter, "APK": _ApkAdapter, "APPX": _AppxAdapter, "PGP": _PgpAdapter, "MACHO": _MachoAdapter, "CAB": _CabAdapter, "C09": _c09, "C19": _c19}.get(t)
 
 
 def canon_model(op, mres):
@@ -122,6 +137,8 @@ def canon_model(op, mres):
         return _appx.canon_model(op, mres)
     if op.startswith("PGP "):
         return _pgp.canon_model(op, mres)
+    if op.startswith("MACHO "):
+        return _macho.canon_model(op, mres)
     if op.startswith("CAB "):
         return _cab.canon_model(op, mres)
     return _pe.canon_model(op, mres) if op.startswith("PE ") else mres
